@@ -13,6 +13,7 @@ import (
 	"sync"
 	"syscall"
 	"testing"
+	"testing/synctest"
 
 	"dsim/core"
 	"dsim/simos"
@@ -145,8 +146,17 @@ func (C01) Generate(seed uint64, tier string) *core.Scenario {
 			durable = append(append(durable, pending...), root)
 			pending = nil
 			b.Ops = append(b.Ops, C01Op{Kind: "put", C: []int{root}}, C01Op{Kind: "commit", Root: root})
-		case x < 80:
+		case x < 76:
 			b.Ops = append(b.Ops, C01Op{Kind: "read", Seed: r.Uint64()})
+		case x < 80:
+			// a batch read that meets a collection in progress: the store asks the collector's callback
+			// about every chunk it is about to hand out, a "yes" makes the read wait for the end of the
+			// collection and start over
+			if b.Config != "mem" && lastRoot >= 0 && len(pending) == 0 {
+				b.Ops = append(b.Ops, C01Op{Kind: "gcread", Seed: r.Uint64()})
+			} else {
+				b.Ops = append(b.Ops, C01Op{Kind: "read", Seed: r.Uint64()})
+			}
 		case x < 84:
 			b.Ops = append(b.Ops, C01Op{Kind: "rebase"})
 		case x < 89:
@@ -640,6 +650,74 @@ func (C01) Execute(t *testing.T, sc *core.Scenario) *core.Result {
 				c01Iterate(ctx, s, m, i, res)
 			}
 			res.Evaluations++
+		case "gcread":
+			st := s.nbs
+			if st == nil || m.committed.IsEmpty() || len(pending) > 0 {
+				continue
+			}
+			r := core.NewRand(op.Seed)
+			reach, _ := u.Closure(m.committed)
+			if len(reach) < 2 {
+				continue
+			}
+			want := hash.HashSet{}
+			for k := r.Range(2, 16); k > 0; k-- {
+				want.Insert(u.Chunks[reach[r.Intn(len(reach))]].Addr)
+			}
+			// the collector "wants to be told" about a random half of them - sometimes not about the one
+			// that sorts first
+			var sorted []hash.Hash
+			for h := range want {
+				sorted = append(sorted, h)
+			}
+			sort.Slice(sorted, func(i, j int) bool { return bytes.Compare(sorted[i][:], sorted[j][:]) < 0 })
+			block := hash.HashSet{}
+			for i, h := range sorted {
+				if (i > 0 || r.Chance(1, 3)) && r.Chance(1, 2) {
+					block.Insert(h)
+				}
+			}
+			if err := st.BeginGC(ctx, func(h hash.Hash) bool { return block.Has(h) }, chunks.GCMode_Full); err != nil {
+				res.Probe("begin_gc_refused")
+				continue
+			}
+			var mu sync.Mutex
+			got := hash.HashSet{}
+			done := make(chan error, 1)
+			compressed := r.Chance(1, 2)
+			go func() {
+				if compressed {
+					done <- st.GetManyCompressed(ctx, want.Copy(), func(_ context.Context, c nbs.ToChunker) {
+						mu.Lock()
+						got.Insert(c.Hash())
+						mu.Unlock()
+					})
+				} else {
+					done <- st.GetMany(ctx, want.Copy(), func(_ context.Context, c *chunks.Chunk) {
+						mu.Lock()
+						got.Insert(c.Hash())
+						mu.Unlock()
+					})
+				}
+			}()
+			synctest.Wait() // the reader has finished, or waits for the end of the collection
+			st.EndGC(chunks.GCMode_Full)
+			err := <-done
+			res.Evaluations++
+			if len(block) > 0 {
+				res.Fault("batch-read-blocked-by-collection")
+			}
+			if err != nil {
+				res.Violate("read-error", "path=GetMany-during-gc", i, "%s", firstLine(err))
+				continue
+			}
+			for _, h := range sorted {
+				if !got.Has(h) {
+					res.Violate("stored-chunk-not-delivered", fmt.Sprintf("path=GetMany-during-gc;compressed=%v;config=%s", compressed, b.Config), i,
+						"a batch read of %d committed chunks that had to wait for a collection in progress (the collector's callback said yes to %d of them) delivered %d: %s was never handed to the caller and no error was returned", len(sorted), len(block), len(got), short(h))
+					break
+				}
+			}
 		case "rebase":
 			if err := s.cs.Rebase(ctx); err != nil {
 				res.Violate("rebase-error", "-", i, "%s", firstLine(err))
